@@ -264,7 +264,7 @@ pub fn tsan_leg(ctx: &Ctx, rep: &mut Report) {
         Ok(exe) => {
             let env = vec![("TSAN_OPTIONS".to_string(), format!("halt_on_error=0:exitcode=0:log_path={logs}/tsanlog"))];
             let mut c = ctx.clone();
-            c.scale = ctx.scale * 0.5;
+            c.scale = ctx.scale * 0.125;
             let (l, ends) = run_sharded_with(&c, 1, 16, &[exe], &env, "tsan", 3600);
             let text = read_logs(&logs, "tsanlog");
             let verdict = judge_reports(rep, "tsan", report_blocks(&text, "WARNING: ThreadSanitizer"));
@@ -275,4 +275,195 @@ pub fn tsan_leg(ctx: &Ctx, rep: &mut Report) {
             rep.extra.insert("tsan_leg".into(), json!({"status": "run", "credentials_issued_under_tsan": l.evals, "counters": l.counters, "reports": verdict, "children": shard_summary(&ends), "wall_s": t0.elapsed().as_secs()}));
         }
     }
+}
+
+// ------------------------------------------------------------------------------------------
+// coverage evidence (thorough tier): which regions of /repo/src/*.rs did this property's
+// workload execute? Evidence only, with one gate: an anchored FILE that was never executed
+// makes the run INCONCLUSIVE (function names are looked up leniently and never gate).
+
+fn demangle_legacy(name: &str) -> String {
+    let s = match name.strip_prefix("_ZN") {
+        Some(s) => s,
+        None => return name.to_string(),
+    };
+    let b = s.as_bytes();
+    let mut i = 0;
+    let mut parts: Vec<String> = vec![];
+    while i < b.len() && b[i].is_ascii_digit() {
+        let mut n = 0usize;
+        while i < b.len() && b[i].is_ascii_digit() {
+            n = n * 10 + (b[i] - b'0') as usize;
+            i += 1;
+        }
+        if i + n > b.len() {
+            break;
+        }
+        parts.push(s[i..i + n].to_string());
+        i += n;
+    }
+    if let Some(last) = parts.last() {
+        if last.len() == 17 && last.starts_with('h') {
+            parts.pop();
+        }
+    }
+    parts.join("::").replace("$LT$", "<").replace("$GT$", ">").replace("$u20$", " ").replace("$C$", ",").replace("..", "::")
+}
+
+/// Rust v0 / legacy symbol -> readable path: LLVM's llvm-cxxfilt (>= 13 knows Rust v0) if it is
+/// installed, else the legacy splitter; an unreadable name is still reported, never a failure.
+fn demangle(name: &str) -> String {
+    use std::io::Write;
+    for dm in ["llvm-cxxfilt", "llvm-cxxfilt-14"] {
+        if let Ok(mut c) = Command::new(dm).stdin(std::process::Stdio::piped()).stdout(std::process::Stdio::piped()).stderr(std::process::Stdio::null()).spawn() {
+            if let Some(mut i) = c.stdin.take() {
+                let _ = writeln!(i, "{name}");
+            }
+            if let Ok(o) = c.wait_with_output() {
+                let t = String::from_utf8_lossy(&o.stdout).trim().to_string();
+                if !t.is_empty() && t != name {
+                    return t;
+                }
+            }
+        }
+    }
+    demangle_legacy(name)
+}
+
+fn llvm_tool(name: &str) -> Option<String> {
+    let out = Command::new("rustc").args(["+nightly", "--print", "sysroot"]).output().ok()?;
+    let root = String::from_utf8_lossy(&out.stdout).trim().to_string();
+    let p = format!("{root}/lib/rustlib/x86_64-unknown-linux-gnu/bin/{name}");
+    if std::path::Path::new(&p).exists() {
+        Some(p)
+    } else {
+        None
+    }
+}
+
+pub fn coverage_leg(ctx: &Ctx, rep: &mut Report) {
+    let t0 = Instant::now();
+    let dir = format!("{}/.partials/cov-{}-{}", ctx.out_dir, ctx.property, std::process::id());
+    let _ = std::fs::create_dir_all(&dir);
+    let fail = |rep: &mut Report, why: String| {
+        rep.extra.insert("coverage".into(), json!({"status": format!("toolchain step failed; evidence only, decides nothing: {why}")}));
+    };
+    let (cov, profdata) = match (llvm_tool("llvm-cov"), llvm_tool("llvm-profdata")) {
+        (Some(a), Some(b)) => (a, b),
+        _ => return fail(rep, "llvm-cov / llvm-profdata not found in the nightly sysroot".into()),
+    };
+    let mock = ctx.property == "C16";
+    let target_dir = if mock { "target-cov-mock" } else { "target-cov" };
+    let mut cmd = Command::new("cargo");
+    cmd.current_dir(harness_dir(ctx))
+        .env("RUSTFLAGS", "-Cinstrument-coverage")
+        .env("CARGO_NET_OFFLINE", "true")
+        .args(["+nightly", "build", "--release", "--offline", "--target-dir", target_dir]);
+    if mock {
+        cmd.args(["--features", "mock"]);
+    }
+    match cmd.output() {
+        Ok(o) if o.status.success() => {}
+        Ok(o) => return fail(rep, String::from_utf8_lossy(&o.stderr).chars().rev().take(400).collect::<String>().chars().rev().collect()),
+        Err(e) => return fail(rep, e.to_string()),
+    }
+    let exe = format!("{}/{}/release/sdjwt-mon", harness_dir(ctx), target_dir);
+    let partial = format!("{dir}/partial.json");
+    let scale = match ctx.property.as_str() {
+        "C02" => 1.0,
+        "C14" => 0.2,
+        _ => 0.05,
+    };
+    let run = Command::new(&exe)
+        .args([ctx.property.as_str(), "quick"])
+        .env("VERIF_SEED", ctx.seed.to_string())
+        .env("VERIF_SCALE", scale.to_string())
+        .env("VERIF_LEG", "cov")
+        .env("VERIF_PARTIAL", &partial)
+        .env("VERIF_OUT", &dir)
+        .env("LLVM_PROFILE_FILE", format!("{dir}/c-%p-%m.profraw"))
+        .stdout(std::process::Stdio::null())
+        .stderr(std::process::Stdio::null())
+        .status();
+    if !run.map(|s| s.success()).unwrap_or(false) {
+        let _ = std::fs::remove_dir_all(&dir);
+        return fail(rep, "instrumented workload did not run to completion".into());
+    }
+    let raws: Vec<String> = std::fs::read_dir(&dir)
+        .map(|rd| rd.flatten().map(|e| e.path().to_string_lossy().to_string()).filter(|p| p.ends_with(".profraw")).collect())
+        .unwrap_or_default();
+    let merged = format!("{dir}/cov.profdata");
+    let ok = Command::new(&profdata).arg("merge").arg("-sparse").args(&raws).args(["-o", &merged]).status().map(|s| s.success()).unwrap_or(false);
+    if !ok {
+        let _ = std::fs::remove_dir_all(&dir);
+        return fail(rep, "llvm-profdata merge failed".into());
+    }
+    let out = Command::new(&cov).args(["export", "--format=text", "-instr-profile", &merged, &exe, "/repo/src"]).output();
+    let _ = std::fs::remove_dir_all(&dir);
+    let v: Value = match out.ok().and_then(|o| serde_json::from_slice(&o.stdout).ok()) {
+        Some(v) => v,
+        None => return fail(rep, "llvm-cov export produced no JSON".into()),
+    };
+    let data = &v["data"][0];
+    let mut files = serde_json::Map::new();
+    for f in data["files"].as_array().cloned().unwrap_or_default() {
+        let name = f["filename"].as_str().unwrap_or("").to_string();
+        if let Some(rel) = name.strip_prefix("/repo/") {
+            let s = &f["summary"];
+            files.insert(rel.to_string(), json!({"regions": s["regions"]["count"], "regions_covered": s["regions"]["covered"], "lines": s["lines"]["count"], "lines_covered": s["lines"]["covered"], "functions": s["functions"]["count"], "functions_covered": s["functions"]["covered"]}));
+        }
+    }
+    // per function (in-repo only)
+    let mut funcs: std::collections::BTreeMap<String, (u64, u64, u64)> = std::collections::BTreeMap::new();
+    for f in data["functions"].as_array().cloned().unwrap_or_default() {
+        let in_repo = f["filenames"].as_array().map(|a| a.iter().any(|x| x.as_str().map(|s| s.starts_with("/repo/src/")).unwrap_or(false))).unwrap_or(false);
+        if !in_repo {
+            continue;
+        }
+        let raw = f["name"].as_str().unwrap_or("");
+        if !raw.contains("sd_jwt_rs") {
+            continue;
+        }
+        let name = demangle(raw);
+        let regions = f["regions"].as_array().cloned().unwrap_or_default();
+        let total = regions.len() as u64;
+        let covered = regions.iter().filter(|r| r[4].as_u64().unwrap_or(0) > 0).count() as u64;
+        let e = funcs.entry(name).or_insert((0, 0, 0));
+        e.0 += f["count"].as_u64().unwrap_or(0);
+        e.1 = e.1.max(total);
+        e.2 = e.2.max(covered);
+    }
+    // anchored files of this property
+    let mut anchored: Vec<String> = vec![];
+    if let Ok(t) = std::fs::read_to_string(format!("{}/properties.jsonl", ctx.verif_dir)) {
+        for line in t.lines() {
+            if let Ok(p) = serde_json::from_str::<Value>(line) {
+                if p["id"] == ctx.property.as_str() {
+                    for f in p["anchors"]["files"].as_array().cloned().unwrap_or_default() {
+                        if let Some(s) = f.as_str() {
+                            if s.starts_with("src/") {
+                                anchored.push(s.to_string());
+                            }
+                        }
+                    }
+                }
+            }
+        }
+    }
+    let mut never: Vec<String> = vec![];
+    for a in &anchored {
+        let covered = files.get(a).and_then(|f| f["regions_covered"].as_u64()).unwrap_or(0);
+        if covered == 0 {
+            never.push(a.clone());
+        }
+    }
+    for a in &never {
+        rep.inconclusive.push(format!("coverage gate: no region of anchored file {a} was executed by this property's workload"));
+    }
+    let fl: Vec<Value> = funcs.iter().map(|(n, (calls, total, cov))| json!({"fn": n, "calls": calls, "regions": total, "regions_covered": cov})).collect();
+    rep.extra.insert(
+        "coverage".into(),
+        json!({"status": "run", "workload": format!("{} quick at VERIF_SCALE={scale} under -Cinstrument-coverage", ctx.property), "anchored_files": anchored,
+               "anchored_files_never_executed": never, "files": files, "functions_in_repo": fl, "wall_s": t0.elapsed().as_secs()}),
+    );
 }
